@@ -7,6 +7,7 @@ from typing import Dict, List, Optional, Set, Tuple
 from ..cfg import CFG, Node
 from ..core import AnalysisError, Cls, Fn, Repo, call_name, calls_in, const_value, dotted, get_kw, last_attr, short, walk_no_nested
 from ..registry import ALGOS, AlgoRegistry, extract, extract_all
+from ..pat import has
 from ..report import Check
 from ..util import self_attr_stores
 
@@ -79,9 +80,9 @@ def _reinit_after_store(ck: Check, repo: Repo) -> None:
     # parameter_mutation mutates the policy only and stores it under the policy's name
     fn = repo.fn(MUT, "Mutations.parameter_mutation")
     src = ast.unparse(fn.node)
-    ck.ob("C02.1", fn, fn.node, "getattr(individual, registry.policy)" in src and "setattr(individual, registry.policy, offspring_policy)" in src,
+    ck.ob("C02.1", fn, fn.node, has(src, 'getattr($individual, $registry.policy)') and has(src, 'setattr($individual, $registry.policy, $offspring_policy)'),
           "parameter_mutation reads and writes the policy network of the registry", construct="parameter_mutation policy read/write")
-    ck.ob("C02.1", fn, fn.node, "individual.mut = 'param'" in src, "parameter_mutation reports 'param'", construct="parameter_mutation label")
+    ck.ob("C02.1", fn, fn.node, has(src, "$individual.mut = 'param'"), "parameter_mutation reports 'param'", construct="parameter_mutation label")
 
 
 def _reinit_opt_provenance(ck: Check, repo: Repo) -> None:
@@ -178,15 +179,15 @@ def _shared_rebuilt(ck: Check, repo: Repo) -> None:
     loads = [c for c in calls_in(rf.node, nested=True) if last_attr(c) in ("load_state_dict", "load_state_dicts")]
     ck.floor("C02.3", len(loads), 2, "state loading in reinit_from_mutated", fn=rf)
     src = ast.unparse(rf.node)
-    ck.ob("C02.3", rf, rf.node, "ind_shared.load_state_dict(offspring.state_dict()" in src and "state_dicts = [offspring.state_dict() for offspring in offspring]" in src,
+    ck.ob("C02.3", rf, rf.node, "ind_shared.load_state_dict(offspring.state_dict()" in src and has(src, '$state_dicts = [$offspring.state_dict() for $offspring in $offspring]'),
           "the re-created network receives the state dict of the same offspring", construct="reinit_from_mutated: state transfer")
     rets = [n for n in rcfg.live_nodes() if n.kind == "stmt" and isinstance(n.ast, ast.Return)]
     ck.ob("C02.3", rf, rets[0].ast if rets else rf.node, bool(rets) and all(dotted(r.ast.value) == "ind_shared" for r in rets), "the new network (not the offspring) is returned")
     rmod = repo.fn(MUT, "Mutations.reinit_module")
-    ck.ob("C02.3", rmod, rmod.node, "return module_cls(**init_dict)" in ast.unparse(rmod.node), "reinit_module instantiates the offspring's class with the given init_dict",
+    ck.ob("C02.3", rmod, rmod.node, has(rmod.node, 'return $module_cls(**$init_dict)'), "reinit_module instantiates the offspring's class with the given init_dict",
           construct="reinit_module")
     ls = repo.fn(MUT, "Mutations.load_state_dicts")
-    ck.ob("C02.3", ls, ls.node, "for module, state_dict in zip(modules, state_dicts)" in ast.unparse(ls.node), "module k receives state dict k", construct="load_state_dicts zip")
+    ck.ob("C02.3", ls, ls.node, has(ls.node, 'for $module, $state_dict in zip($modules, $state_dicts):\n    ...'), "module k receives state dict k", construct="load_state_dicts zip")
 
 
 def _critics_follow(ck: Check, repo: Repo) -> None:
@@ -228,16 +229,16 @@ def _critics_follow(ck: Check, repo: Repo) -> None:
     # get_offspring_eval_modules: clones, split by policy flag, keyed by eval name
     g = repo.fn(MUT, "get_offspring_eval_modules")
     src = ast.unparse(g.node)
-    ck.ob("C02.4", g, g.node, "for group in registry.groups" in src and "getattr(individual, group.eval)" in src, "offspring are taken from every registered group", construct="offspring source")
-    ck.ob("C02.4", g, g.node, "[mod.clone() for mod in eval_module] if isinstance(eval_module, list) else eval_module.clone()" in src, "mutations act on clones of the eval networks", construct="offspring cloned")
-    ck.ob("C02.4", g, g.node, "if group.policy:\n            offspring_policy[group.eval] = offspring\n        else:\n            offspring_modules[group.eval] = offspring" in src,
+    ck.ob("C02.4", g, g.node, has(src, 'for $group in $registry.groups:\n    ...') and has(src, 'getattr($individual, $group.eval)'), "offspring are taken from every registered group", construct="offspring source")
+    ck.ob("C02.4", g, g.node, has(src, '[$mod.clone() for $mod in $eval_module] if isinstance($eval_module, list) else $eval_module.clone()'), "mutations act on clones of the eval networks", construct="offspring cloned")
+    ck.ob("C02.4", g, g.node, has(src, 'if $group.policy:\n    $offspring_policy[$group.eval] = $offspring\nelse:\n    $offspring_modules[$group.eval] = $offspring'),
           "the policy group is separated from the other eval groups, each keyed by its attribute name", construct="policy split")
     # _apply_arch_mutation: calls getattr(net, method)(**args) and returns the name really applied
     ap = repo.fn(MUT, "Mutations._apply_arch_mutation")
     src = ast.unparse(ap.node)
-    ck.ob("C02.4", ap, ap.node, "getattr(networks, mut_method)(**applied_mut_dict)" in src and "getattr(net, mut_method[i])(**applied_mut_dict[i])" in src,
+    ck.ob("C02.4", ap, ap.node, has(src, 'getattr($networks, $mut_method)(**$applied_mut_dict)') and has(src, 'getattr($net, $mut_method[$i])(**$applied_mut_dict[$i])'),
           "the named method is invoked on the network with the recorded arguments", construct="_apply_arch_mutation invocation")
-    ck.ob("C02.4", ap, ap.node, "applied_muts = networks.last_mutation_attr" in src and "applied_muts.append(net.last_mutation_attr)" in src,
+    ck.ob("C02.4", ap, ap.node, has(src, '$applied_muts = $networks.last_mutation_attr') and has(src, '$applied_muts.append($net.last_mutation_attr)'),
           "the name reported is the one the network says was really applied (fallbacks resolved)", construct="_apply_arch_mutation applied name")
 
 
@@ -355,9 +356,9 @@ def _encoder_hook(ck: Check, repo: Repo) -> None:
     ck.floor("C02.6", n, 3, "algorithms with an encoder-sharing hook (DDPG, TD3, PPO)")
     sf = repo.fn("agilerl.utils.algo_utils", "share_encoder_parameters")
     src = ast.unparse(sf.node)
-    ck.ob("C02.6", sf, sf.node, "from_module(policy.encoder)" in src and "to_module(other.encoder)" in src and "for other in others" in src,
+    ck.ob("C02.6", sf, sf.node, has(src, 'from_module($policy.encoder)') and has(src, '$_.to_module($other.encoder)') and has(src, 'for $other in $others:\n    ...'),
           "share_encoder_parameters installs the policy encoder's parameters into every other network's encoder", construct="share_encoder_parameters body")
-    ck.ob("C02.6", sf, sf.node, "other.encoder.disable_mutations()" in src, "tied encoders no longer advertise their own architecture mutations (they follow the policy through the hook)",
+    ck.ob("C02.6", sf, sf.node, has(src, '$other.encoder.disable_mutations()'), "tied encoders no longer advertise their own architecture mutations (they follow the policy through the hook)",
           construct="tied encoders disable mutations")
 
 
